@@ -86,6 +86,22 @@ pub fn exec_op<'tx>(tx: &Tx<'tx>, op: &'tx Op, owned: bool) -> Ret {
             Ok(b) => b,
             Err(e) => return Ret::Err(err_kind(&e)),
         };
+        // calls `$f` with the name converted to one of the ToBytes argument types
+        macro_rules! with_name {
+            ($owned:expr, $salt:expr, $name:expr, |$n:ident| $call:expr) => {{
+                let style = if $owned { 1 + ($name.len() + $salt) % 4 } else { 0 };
+                match style {
+                    0 => { let $n = $name.as_slice(); bucket_ret!($call) }
+                    1 => match String::from_utf8($name.clone()) {
+                        Ok(s) => { let $n = s; bucket_ret!($call) }
+                        Err(_) => { let $n = $name.clone(); bucket_ret!($call) }
+                    },
+                    2 => { let $n = $name.clone(); bucket_ret!($call) }
+                    3 => { let $n = bytes::Bytes::from($name.clone()); bucket_ret!($call) }
+                    _ => { let $n = $name.as_slice(); bucket_ret!($call) }
+                }
+            }};
+        }
         macro_rules! bucket_ret {
             ($e:expr) => {
                 match $e {
@@ -132,28 +148,36 @@ pub fn exec_op<'tx>(tx: &Tx<'tx>, op: &'tx Op, owned: bool) -> Ret {
                 Ok(kv) => Ret::Removed(kv.key().to_vec(), kv.value().to_vec()),
                 Err(e) => Ret::Err(err_kind(&e)),
             },
-            (Op::Create { name, .. }, Some(b)) => {
-                if owned { bucket_ret!(b.create_bucket(name.clone())) } else { bucket_ret!(b.create_bucket(name.as_slice())) }
+            // bucket names: with `owned` the name type rotates per operation kind (String, Vec<u8>,
+            // bytes::Bytes, slice), while paths are always resolved with slices, so one
+            // transaction addresses the same bucket through different ToBytes types
+            (Op::Create { name, .. }, Some(b)) => with_name!(owned, 0, name, |n| b.create_bucket(n)),
+            (Op::Create { name, .. }, None) => with_name!(owned, 0, name, |n| tx.create_bucket(n)),
+            (Op::GetB { name, .. }, Some(b)) => with_name!(owned, 1, name, |n| b.get_bucket(n)),
+            (Op::GetB { name, .. }, None) => with_name!(owned, 1, name, |n| tx.get_bucket(n)),
+            (Op::GetOrCreate { name, .. }, Some(b)) => with_name!(owned, 2, name, |n| b.get_or_create_bucket(n)),
+            (Op::GetOrCreate { name, .. }, None) => with_name!(owned, 2, name, |n| tx.get_or_create_bucket(n)),
+            (Op::DelB { name, .. }, Some(b)) => {
+                let r = if owned {
+                    match String::from_utf8(name.clone()) {
+                        Ok(s) => b.delete_bucket(s),
+                        Err(_) => b.delete_bucket(name.clone()),
+                    }
+                } else {
+                    b.delete_bucket(name.as_slice())
+                };
+                match r {
+                    Ok(()) => Ret::Unit,
+                    Err(e) => Ret::Err(err_kind(&e)),
+                }
             }
-            (Op::Create { name, .. }, None) => {
-                if owned { bucket_ret!(tx.create_bucket(name.clone())) } else { bucket_ret!(tx.create_bucket(name.as_slice())) }
+            (Op::DelB { name, .. }, None) => {
+                let r = if owned { tx.delete_bucket(bytes::Bytes::from(name.clone())) } else { tx.delete_bucket(name.as_slice()) };
+                match r {
+                    Ok(()) => Ret::Unit,
+                    Err(e) => Ret::Err(err_kind(&e)),
+                }
             }
-            (Op::GetB { name, .. }, Some(b)) => bucket_ret!(b.get_bucket(name.as_slice())),
-            (Op::GetB { name, .. }, None) => bucket_ret!(tx.get_bucket(name.as_slice())),
-            (Op::GetOrCreate { name, .. }, Some(b)) => {
-                if owned { bucket_ret!(b.get_or_create_bucket(name.clone())) } else { bucket_ret!(b.get_or_create_bucket(name.as_slice())) }
-            }
-            (Op::GetOrCreate { name, .. }, None) => {
-                if owned { bucket_ret!(tx.get_or_create_bucket(name.clone())) } else { bucket_ret!(tx.get_or_create_bucket(name.as_slice())) }
-            }
-            (Op::DelB { name, .. }, Some(b)) => match b.delete_bucket(name.as_slice()) {
-                Ok(()) => Ret::Unit,
-                Err(e) => Ret::Err(err_kind(&e)),
-            },
-            (Op::DelB { name, .. }, None) => match tx.delete_bucket(name.as_slice()) {
-                Ok(()) => Ret::Unit,
-                Err(e) => Ret::Err(err_kind(&e)),
-            },
             (Op::Put { .. }, None) | (Op::Del { .. }, None) => {
                 panic!("harness: key/value op addressed at the transaction root")
             }
@@ -165,6 +189,58 @@ pub fn exec_op<'tx>(tx: &Tx<'tx>, op: &'tx Op, owned: bool) -> Ret {
     }
 }
 
+/// Like `exec_op`, but the bucket the operation addresses is reached through the listing
+/// iterators (`tx.buckets()`, `bucket.buckets()`) instead of by name.  Only for non-root paths.
+pub fn exec_op_listed<'tx>(tx: &Tx<'tx>, op: &'tx Op) -> Option<Ret> {
+    if op.path().is_empty() {
+        return None;
+    }
+    let r = catch_unwind(AssertUnwindSafe(|| -> Option<Ret> {
+        let mut cur: Option<Bucket> = None;
+        for name in op.path() {
+            let next = match &cur {
+                None => tx.buckets().find(|(n, _)| n.name() == name.as_slice()).map(|(_, b)| b),
+                Some(b) => b.buckets().find(|(n, _)| n.name() == name.as_slice()).map(|(_, b)| b),
+            };
+            match next {
+                Some(b) => cur = Some(b),
+                None => return None,
+            }
+        }
+        let b = cur?;
+        Some(match op {
+            Op::Put { key, val, .. } => match b.put(key.as_slice(), val.as_slice()) {
+                Ok(prev) => Ret::Prev(prev.map(|kv| (kv.key().to_vec(), kv.value().to_vec()))),
+                Err(e) => Ret::Err(err_kind(&e)),
+            },
+            Op::Del { key, .. } => match b.delete(key.as_slice()) {
+                Ok(kv) => Ret::Removed(kv.key().to_vec(), kv.value().to_vec()),
+                Err(e) => Ret::Err(err_kind(&e)),
+            },
+            Op::Create { name, .. } => match b.create_bucket(name.as_slice()) {
+                Ok(x) => Ret::BucketOk(x.next_int()),
+                Err(e) => Ret::Err(err_kind(&e)),
+            },
+            Op::GetB { name, .. } => match b.get_bucket(name.as_slice()) {
+                Ok(x) => Ret::BucketOk(x.next_int()),
+                Err(e) => Ret::Err(err_kind(&e)),
+            },
+            Op::GetOrCreate { name, .. } => match b.get_or_create_bucket(name.as_slice()) {
+                Ok(x) => Ret::BucketOk(x.next_int()),
+                Err(e) => Ret::Err(err_kind(&e)),
+            },
+            Op::DelB { name, .. } => match b.delete_bucket(name.as_slice()) {
+                Ok(()) => Ret::Unit,
+                Err(e) => Ret::Err(err_kind(&e)),
+            },
+        })
+    }));
+    match r {
+        Ok(r) => r,
+        Err(p) => Some(Ret::Panic(format!("{} @ {}", panic_msg(p), last_panic_loc()))),
+    }
+}
+
 fn dump_bucket<'b, 'tx>(b: &Bucket<'b, 'tx>, depth: usize) -> Result<BucketM, String> {
     if depth > 16 {
         return Err("bucket nesting deeper than 16 (cycle?)".into());
@@ -172,7 +248,20 @@ fn dump_bucket<'b, 'tx>(b: &Bucket<'b, 'tx>, depth: usize) -> Result<BucketM, St
     let mut m = BucketM { next_int: b.next_int(), ..Default::default() };
     let mut last: Option<Bytes> = None;
     let mut n = 0usize;
-    for data in b.cursor() {
+    let mut cur = b.cursor();
+    loop {
+        let data = match cur.next() {
+            Some(d) => d,
+            None => {
+                // asking again after the end is harmless
+                for again in 0..2 {
+                    if let Some(d) = cur.next() {
+                        return Err(format!("cursor yields {} on call {} after it had returned None", show(d.key()), again + 1));
+                    }
+                }
+                break;
+            }
+        };
         n += 1;
         if n > SCAN_CAP {
             return Err("cursor did not terminate".into());
